@@ -12,6 +12,9 @@ def WfInv (s : State) : Prop := ∀ b, (s.pcAt b).callerOk = true
 theorem wfInv_init (nq ng max : Nat) : WfInv (initState nq ng max) := by
   intro b; simp [initState, State.pcAt, Pc.callerOk]
 
+theorem wfInv_initP (ps : List Bool) (ng max : Nat) : WfInv (initStateP ps ng max) := by
+  intro b; simp [initStateP, initState, State.pcAt, Pc.callerOk]
+
 theorem WfInv.keep_goto {s X : State} {a : Nat} {pc' : Pc}
     (hX : ∀ b, (X.pcAt b).callerOk = true) (hok : pc'.callerOk = true) : WfInv (X.goto a pc') := by
   intro b
